@@ -12,6 +12,8 @@ import HopModel.Driver.C13
 import HopModel.Driver.C12
 import HopModel.Driver.C06
 import HopModel.Driver.C07
+import HopModel.Driver.C08
+import HopModel.Driver.Mux
 
 def main (args : List String) : IO UInt32 := do
   match args with
@@ -35,6 +37,11 @@ def main (args : List String) : IO UInt32 := do
   | "C07" :: rest => Driver.C07.main rest; return 0
   | "C07e2e" :: rest => Driver.C07.mainE2E rest; return 0
   | "C07full" :: rest => Driver.C07.mainFull rest; return 0
+  | "C08" :: rest => Driver.C08.main rest; return 0
+  | "C08sys" :: rest => Driver.C08.mainSys rest; return 0
+  | "C09" :: rest => Driver.Mux.main rest; return 0
+  | "C11" :: rest => Driver.Mux.main rest; return 0
+  | "C09late" :: rest => Driver.Mux.mainLate rest; return 0
   | _ =>
     IO.eprintln "usage: hopmodel <Cxx> [--spec] < ops.txt > model.txt"
     return 2
